@@ -1,7 +1,7 @@
 use crate::{
     context::{ParseContext, ParseFileContext},
     language::{CrateName, SupportedLanguage},
-    rename::RenameExt,
+    rename::{rename_field, rename_variant},
     rust_types::{
         DecoratorMap, FieldDecorator, Id, RustConst, RustConstExpr, RustEnum, RustEnumShared,
         RustEnumVariant, RustEnumVariantShared, RustField, RustItem, RustStruct, RustType,
@@ -424,7 +424,7 @@ fn parse_enum_variant(
     target_os: &[String],
 ) -> Result<RustEnumVariant, ParseError> {
     let shared = RustEnumVariantShared {
-        id: get_ident(Some(&v.ident), &v.attrs, enum_serde_rename_all),
+        id: get_variant_ident(Some(&v.ident), &v.attrs, enum_serde_rename_all),
         comments: parse_comment_attrs(&v.attrs),
     };
 
@@ -629,9 +629,28 @@ fn get_ident(
     attrs: &[syn::Attribute],
     rename_all: &Option<String>,
 ) -> Id {
+    get_ident_with(ident, attrs, rename_all, rename_all_to_case)
+}
+
+/// Like `get_ident`, for enum variants: serde applies `rename_all` to variants with a
+/// different algorithm than to fields.
+fn get_variant_ident(
+    ident: Option<&proc_macro2::Ident>,
+    attrs: &[syn::Attribute],
+    rename_all: &Option<String>,
+) -> Id {
+    get_ident_with(ident, attrs, rename_all, rename_all_to_variant_case)
+}
+
+fn get_ident_with(
+    ident: Option<&proc_macro2::Ident>,
+    attrs: &[syn::Attribute],
+    rename_all: &Option<String>,
+    rename_all_fn: fn(String, &Option<String>) -> String,
+) -> Id {
     let original = ident.map_or("???".to_string(), |id| id.to_string().replace("r#", ""));
 
-    let mut renamed = rename_all_to_case(original.clone(), rename_all);
+    let mut renamed = rename_all_fn(original.clone(), rename_all);
 
     let mut renamed_via_serde_rename = false;
     if let Some(s) = serde_rename(attrs) {
@@ -649,17 +668,14 @@ fn get_ident(
 fn rename_all_to_case(original: String, case: &Option<String>) -> String {
     match case {
         None => original,
-        Some(value) => match value.as_str() {
-            "lowercase" => original.to_lowercase(),
-            "UPPERCASE" => original.to_uppercase(),
-            "PascalCase" => original.to_pascal_case(),
-            "camelCase" => original.to_camel_case(),
-            "snake_case" => original.to_snake_case(),
-            "SCREAMING_SNAKE_CASE" => original.to_screaming_snake_case(),
-            "kebab-case" => original.to_kebab_case(),
-            "SCREAMING-KEBAB-CASE" => original.to_screaming_kebab_case(),
-            _ => original,
-        },
+        Some(value) => rename_field(value, &original),
+    }
+}
+
+fn rename_all_to_variant_case(original: String, case: &Option<String>) -> String {
+    match case {
+        None => original,
+        Some(value) => rename_variant(value, &original),
     }
 }
 
